@@ -145,6 +145,8 @@ macro_rules! piece_body {
             let want = r::legal(&p, r::Mv { src: s, dst: d, promo: 0 }) && mask.contains(Pos::from_u8(d).unwrap());
             let got = entry_count(&list, s, d);
             assert!(got == if want { 1 } else { 0 }, "VERIF piece {} {}->{} on [{}]: generated {} times, legal&&masked = {}", $pc, s, d, b, got, want);
+            kani::cover!(want && g::has(r::occ(&p), d), "reach: a legal capture was generated");
+            kani::cover!(!want && r::pattern_ok(&p, r::Mv { src: s, dst: d, promo: 0 }) && mask.contains(Pos::from_u8(d).unwrap()), "reach: a pseudo-legal but illegal move was withheld");
         }
     };
 }
@@ -227,6 +229,9 @@ macro_rules! pawn_body {
             let want = r::legal(&p, r::Mv { src: s, dst: d, promo }) && mask.contains(Pos::from_u8(d).unwrap());
             let got = entry_count(&list, s, d);
             assert!(got == if want { 1 } else { 0 }, "VERIF pawn {}->{} (promo {}) on [{}]: generated {} times, legal&&masked = {}", s, d, promo, b, got, want);
+            kani::cover!(want && d == ep_dest, "reach: a legal en-passant capture was generated");
+            kani::cover!(want && promo != 0, "reach: a legal promotion was generated");
+            kani::cover!(!want && d == ep_dest && k >= ordinary_loops, "reach: an en-passant candidate was withheld");
             // promotion flag: exactly the entries of pawns on their seventh rank; the plain move of such a pawn is not legal
             let mut i = 0;
             while i < list.len() {
@@ -322,6 +327,8 @@ macro_rules! king_steps {
             let want = r::legal(&p, r::Mv { src: k, dst: d, promo: 0 }) && mask.contains(dp);
             let got = list.len() == 1 && list[0].moves.contains(dp);
             assert!(got == want, "VERIF king {}->{} on [{}]: generated {} legal&&masked {}", k, d, b, got, want);
+            kani::cover!(want, "reach: a legal king move was generated");
+            kani::cover!(!want && g::has(g::king_att(k), d) && mask.contains(dp), "reach: a king step onto an attacked or own square was withheld");
             if list.len() == 1 {
                 assert!(list[0].src as u8 == k && !list[0].promotion && list[0].moves.any(), "VERIF king entry shape");
             }
@@ -354,6 +361,8 @@ fn c01_king_castle() {
     let want = r::legal(&p, r::Mv { src: k, dst: d, promo: 0 });
     let got = list.len() == 1 && list[0].moves.contains(dp);
     assert!(got == want, "VERIF castling {}->{} on [{}]: generated {} legal {}", k, d, b, got, want);
+    kani::cover!(want && p.turn == g::BLACK, "reach: legal castling by Black");
+    kani::cover!(!want && p.rights != 0, "reach: castling refused although a right is present");
 }
 
 /// check_mask: squares on which a non-king move resolves a single check: between(king, checker) + checker; everything when not in check
